@@ -251,6 +251,8 @@ impl LogState {
             redo::verif::point("log.enter", &format!("{} {}", fid, was_locked as i32));
         }
         let mut line_head: Vec<u8> = Vec::new();
+        // The record that followed unterminated text on one line; handled as the next line.
+        let mut glued: Option<Vec<u8>> = None;
         let mut width = tty_width();
         loop {
             if f.is_none() {
@@ -277,7 +279,9 @@ impl LogState {
                     Err(e) => return Err(e.into()),
                 }
             }
-            let mut line = if let Some(f) = f.as_mut() {
+            let mut line = if let Some(rest) = glued.take() {
+                rest
+            } else if let Some(f) = f.as_mut() {
                 // Note: normally includes trailing \n.
                 // In 'follow' mode, might get a line with no trailing \n
                 // (eg. when ./configure is halfway through a test), which we
@@ -364,6 +368,17 @@ impl LogState {
             // is decoded: in 'follow' mode the two halves of a multi-byte character
             // may arrive in different reads.
             let line = String::from_utf8_lossy(&line).into_owned();
+            // A script may leave text without a newline in front of a record that a
+            // redo command appends to the same log (`printf 'checking y... ' >&2;
+            // redo-ifchange y`).  Show the text as a line of its own and handle the
+            // record next: otherwise y's log would never be shown.
+            let line = match line.find("@@REDO:") {
+                Some(i) if i > 0 && Meta::parse(line[i..].trim_end_matches('\n')).is_ok() => {
+                    glued = Some(line[i..].as_bytes().to_vec());
+                    format!("{}\n", &line[..i])
+                }
+                _ => line,
+            };
             if !self.status.is_empty() {
                 io::stdout().flush()?;
                 eprint!("\r{:<width$.width$}\r", "", width = width);
